@@ -327,7 +327,7 @@ pub fn run_c16(ctx: &Ctx) -> Report {
             } else {
                 (0..counts[k]).map(|_| (*rng.pick(&types), rng.bool())).collect()
             };
-            let params: Vec<Param> = tys
+            let mut params: Vec<Param> = tys
                 .iter()
                 .map(|&(t, u)| {
                     if rng.chance(1, 8) {
@@ -337,6 +337,17 @@ pub fn run_c16(ctx: &Ctx) -> Report {
                     }
                 })
                 .collect();
+            // now and then one parameter is streamed with COM_STMT_SEND_LONG_DATA first: consuming it
+            // must not disturb the statement's bound types
+            if rng.chance(1, 5) {
+                let pi = rng.usize(counts[k]);
+                let data = format!("long-{}-{}", k, rng.below(1000)).into_bytes();
+                cv.push(MCmd::LongData { id: ids[k], param: pi as u16, data }, None);
+                params[pi].value = None;
+                params[pi].long = true;
+                rep.counters.inc("executions_with_long_data");
+                pattern.push_str(&format!("{}L ", k));
+            }
             if rebind {
                 bound[k] = Some(tys);
                 rep.counters.inc("rebind_executions");
@@ -368,6 +379,7 @@ pub fn run_c16(ctx: &Ctx) -> Report {
         rep.require("rebind_executions", 100);
         rep.require("histories_interleaving_statements", 100);
         rep.require("flag_only_rebinds", 100);
+        rep.require("executions_with_long_data", 100);
     }
     rep
 }
